@@ -692,6 +692,54 @@ func (w *WaitGroup) Wait() {
 	raceAcquire(unsafe.Pointer(&w.hb))
 }
 
+// Cond is a drop-in replacement for sync.Cond. Under the scheduler Signal wakes every waiter
+// (callers of Wait must re-check their condition in a loop anyway), so every wake-up order the
+// real primitive allows is explored and a few it does not are added: an over-approximation that
+// cannot hide a behaviour of the real code.
+type Cond struct {
+	L    Locker
+	real *gosync.Cond
+	gen  uint64
+	hb   int32
+}
+
+func NewCond(l Locker) *Cond { return &Cond{L: l, real: gosync.NewCond(l)} }
+
+type condWait struct {
+	c *Cond
+	g uint64
+}
+
+//go:norace
+func (w condWait) ok() bool { return w.c.gen != w.g }
+
+//go:norace
+func (c *Cond) Wait() {
+	s := get()
+	if s == nil {
+		c.real.Wait()
+		return
+	}
+	w := condWait{c, c.gen}
+	c.L.Unlock()
+	s.point("cond.wait", w.ok)
+	raceAcquire(unsafe.Pointer(&c.hb))
+	c.L.Lock()
+}
+
+//go:norace
+func (c *Cond) Signal() { c.Broadcast() }
+
+//go:norace
+func (c *Cond) Broadcast() {
+	if s := cur.Load(); s == nil {
+		c.real.Broadcast()
+		return
+	}
+	raceRelease(unsafe.Pointer(&c.hb))
+	c.gen++
+}
+
 type Once = gosync.Once
 type Pool = gosync.Pool
 type Map = gosync.Map
@@ -705,6 +753,23 @@ type Timer struct {
 	active bool
 	Label  string
 	real   *time.Timer
+	fn     func() // AfterFunc: run in a new thread when the timer fires
+}
+
+// After replaces time.After: the channel of a virtual timer.
+func After(d time.Duration) <-chan time.Time { return NewTimer(d).C }
+
+// AfterFunc replaces time.AfterFunc: f runs in its own thread when the harness fires the timer.
+//
+//go:norace
+func AfterFunc(d time.Duration, f func()) *Timer {
+	s := get()
+	if s == nil {
+		return &Timer{C: make(chan time.Time, 1), real: time.AfterFunc(d, f)}
+	}
+	t := &Timer{C: make(chan time.Time, 1), active: true, fn: f}
+	s.timers = append(s.timers, t)
+	return t
 }
 
 //go:norace
@@ -758,6 +823,11 @@ func FireTimers() int {
 	for _, t := range s.timers {
 		if t.active {
 			t.active = false
+			if t.fn != nil {
+				Go("time.AfterFunc", t.fn)
+				n++
+				continue
+			}
 			select {
 			case t.C <- time.Time{}:
 				n++
